@@ -46,11 +46,23 @@ def check(ctx, rep):
             first = cmr.resolve(c.args[0]) if c.args else None
             pieces = isinstance(first, ast.ListComp) and '.split()' in norm_stmt(first.generators[0].iter) and \
                 '.serialize()' in norm_stmt(first.elt)
+            # the size argument is the parameter itself or a local that starts as a copy of it (the default is
+            # decided below, on the value that reaches this call)
+            def from_param(e) -> bool:
+                seen = set()
+                while isinstance(e, ast.Name) and e.id != argname and e.id not in seen:
+                    seen.add(e.id)
+                    firsts = [a for a in walk_own(m.node) if isinstance(a, ast.Assign) and
+                              isinstance(a.targets[0], ast.Name) and a.targets[0].id == e.id]
+                    if not firsts:
+                        return False
+                    e = min(firsts, key=lambda a: a.order).value
+                return isinstance(e, ast.Name) and e.id == argname
             if name == 'product':
                 good = len(c.args) == 1 and pieces and \
-                    (any(kw.arg == 'repeat' and norm_stmt(kw.value) == 'repeat' for kw in c.keywords))
+                    (any(kw.arg == 'repeat' and from_param(kw.value) for kw in c.keywords))
             else:
-                good = len(c.args) == 2 and pieces and norm_stmt(c.args[1]) == argname
+                good = len(c.args) == 2 and pieces and from_param(c.args[1])
             ob(rep, 'CALL-itertools', m.fq, f'itertools.{name} receives (serialized residue pieces, {argname})', good,
                norm_stmt(c), f'arguments are `{norm_stmt(c)}`', m.loc(c), 'C19a')
         # the size handed to itertools: len(self) when the caller passes None, the caller's value otherwise (read under
@@ -60,10 +72,15 @@ def check(ctx, rep):
         finals = {}
         for given in (None, 3, 9):
             ge = GE({argname: given, 'len(self)': 7, 'len(self.sequence)': 7}, cm.aliases())
+            size_expr = None
+            if calls:
+                size_expr = next((kw.value for kw in calls[0].keywords if kw.arg == 'repeat'), None) if name == 'product' \
+                    else (calls[0].args[1] if len(calls[0].args) > 1 else None)
             for _st in specialise(m.node.body, ge):
                 if calls and any(x is calls[0] for x in ast.walk(_st)):
                     break
-            finals[given] = ge.env.get(argname, U)
+            # the value that reaches the itertools call
+            finals[given] = ge.eval(size_expr) if size_expr is not None else ge.env.get(argname, U)
         dflt = finals == {None: 7, 3: 3, 9: 9}
         ob(rep, 'CALL-itertools', m.fq, f'{argname}=None means the full length', dflt, f'{argname} = len(self)',
            f'with len(self) == 7 the size used is {finals}: None no longer defaults to the full length, or a given size '
